@@ -6,6 +6,8 @@ open BinNums
 open Vx
 open C01Model
 open C01FileModel
+open C01GenModel
+open C01GenFileModel
 
 let res_str (r : coq_N list Base.res) : string =
   match r with
@@ -108,6 +110,74 @@ let why (bs : coq_N list) : string =
   | Base.Panic -> "panic"
   | Base.OutOfFuel -> "fuel"
 
+(* ---- second generation (G lines): the input was accepted and NOT reproduced by Box.Encode; obs2 = what the real decoder and
+   encoders do with the bytes Box.Encode wrote.  The model recomputes those bytes (already compared on the C line), observes them
+   itself, and evaluates the hypothesis gen2_ok of C01_fixpoint (second conjunct) on them; where it holds the theorem's conclusion (everything
+   consumed, Size() = length, Box.Encode and Box.EncodeSW give the same bytes again) is checked on the IMPLEMENTATION's answer. *)
+(* where a second generation that is not a fixed point comes from: the deepest box whose own re-encoding is not a fixed point *)
+let bytes_of_str (x : string) : coq_N list = L.init (S.length x) (fun i -> n_of_int (Char.code x.[i]))
+let is_fixed (e : coq_N list) : bool =
+  match decode e with Base.Ok (t2, []) -> (match encode_w t2 with Base.Ok e2 -> e2 = e | _ -> false) | _ -> false
+let rec culprit (t : mbox) : string =
+  let kids = match t with MCont (_, cs) -> cs | MPre (_, _, _, cs) -> cs | _ -> [] in
+  let bad c = match encode_w c with Base.Ok e -> not (is_fixed e) | _ -> false in
+  match L.filter bad kids with
+  | c :: _ -> culprit c
+  | [] -> S.concat "" (L.map (fun c -> S.make 1 (Char.chr (int_of_n c land 255))) (box_name t))
+
+let second_generation (id : string) (bs : coq_N list) (obs2 : string) : unit =
+  match decode bs with
+  | Base.Ok (t, _) ->
+    (match encode_w t with
+     | Base.Ok enc ->
+       let m2 = observe enc in
+       if strip_exact m2 <> obs2 then Printf.printf "MISMATCH %s gen2 model=%s\n" id m2
+       else begin
+         let first = if exact_box t then "exact" else "inexact" in
+         let cls = match gen2 enc with
+           | G2Fix -> "fix" | G2Why -> "why" | G2Rest -> "rest" | G2Rej -> "rej" | G2Bytes -> "bytes" in
+         let len = L.length enc in
+         let e = hex_of_bytes enc in
+         let concl = obs2 = Printf.sprintf "dec=ok;used=%d;size=%d;encw=ok:%s;encsw=ok:%s" len len e e in
+         if gen2_ok enc && not concl then
+           Printf.printf "MISMATCH %s gen2 hypothesis of C01_fixpoint (second conjunct) holds, conclusion does not on the implementation\n" id
+         else if concl then Printf.printf "OK %s gen2-%s-%s%s\n" id first cls (if gen2_ok enc then "" else "-fixed-anyway")
+         else Printf.printf "OK %s gen2-%s-%s NOTFIXED %s\n" id first cls (hex_of_bytes (bytes_of_str (culprit t)))
+       end
+     | _ -> Printf.printf "MISMATCH %s gen2 model does not encode the first generation\n" id)
+  | _ -> Printf.printf "MISMATCH %s gen2 model does not accept the first generation\n" id
+
+(* the same for whole files (H lines): DecodeFileSR / File.Encode / File.EncodeSW applied to the bytes File.Encode wrote for an
+   accepted file it did not reproduce; hypothesis gen2_file_ok of C01_file_boxtree (third conjunct) *)
+let second_generation_file (id : string) (bs : coq_N list) (obs2 : string) : unit =
+  match decode_file_sr bs with
+  | FOk ts ->
+    (match file_encode_w ts with
+     | Base.Ok enc ->
+       let m2 = observe_file enc in
+       if m2 = "outside" then Printf.printf "OK %s gen2file-outside\n" id
+       else if strip_exact m2 <> obs2 then Printf.printf "MISMATCH %s gen2 model=%s\n" id m2
+       else begin
+         let first = if L.for_all exact_box ts then "exact" else "inexact" in
+         let cls = match gen2_file enc with
+           | G2Fix -> "fix" | G2Why -> "why" | G2Rest -> "rest" | G2Rej -> "rej" | G2Bytes -> "bytes" in
+         let e = hex_of_bytes enc in
+         let suffix = Printf.sprintf ";encw=ok:%s;encsw=ok:%s" e e in
+         let ls = S.length suffix and lo = S.length obs2 in
+         let concl = lo >= ls && S.sub obs2 (lo - ls) ls = suffix && lo > 6 && S.sub obs2 0 6 = "dec=ok" in
+         if gen2_file_ok enc && not concl then
+           Printf.printf "MISMATCH %s gen2 hypothesis of C01_file_boxtree (third conjunct) holds, conclusion does not on the implementation\n" id
+         else if concl then Printf.printf "OK %s gen2file-%s-%s%s\n" id first cls (if gen2_file_ok enc then "" else "-fixed-anyway")
+         else begin
+           let bad c = match encode_w c with Base.Ok e -> not (is_fixed e) | _ -> false in
+           let site = match L.filter bad ts with c :: _ -> culprit c | [] -> "File" in
+           Printf.printf "OK %s gen2file-%s-%s NOTFIXED %s\n" id first cls (hex_of_bytes (bytes_of_str site))
+         end
+       end
+     | _ -> Printf.printf "MISMATCH %s gen2 model does not encode the first generation\n" id)
+  | FSencParse -> Printf.printf "OK %s gen2file-outside\n" id
+  | _ -> Printf.printf "MISMATCH %s gen2 model does not accept the first generation\n" id
+
 let () =
   if Array.length Sys.argv > 1 && Sys.argv.(1) = "dontcare" then begin
     L.iter (fun v ->
@@ -145,5 +215,7 @@ let () =
               (if S.length m > 7 && S.sub m 0 6 = "dec=ok" then
                  (if L.mem "exact=1" (split_on ';' m) then "file-exact" else "file-inexact") else "file-rej")
           else Printf.printf "MISMATCH %s model=%s\n" id m
+        | ["G"; id; inhex; obs2] -> second_generation id (bytes_of_hex inhex) obs2
+        | ["H"; id; inhex; obs2] -> second_generation_file id (bytes_of_hex inhex) obs2
         | ["W"; id; inhex] -> Printf.printf "WHY %s %s\n" id (why (bytes_of_hex inhex))
         | _ -> Printf.printf "BADLINE %s\n" line)
